@@ -535,6 +535,20 @@ class ArrayBase(ParsableBase, MutableSequence, Serializable):
     def append(self, value):
         self.insert(len(self._items), value)
 
+    def extend(self, values):
+        values = list(values)
+        self._update_items_size(insert_items=values)
+
+        self._items.extend(values)
+
+    def clear(self):
+        self._update_items_size(del_items=self._items)
+
+        self._items = []
+
+    def reverse(self):
+        self._items.reverse()
+
     def _asdict(self):
         return self._items
 
